@@ -323,3 +323,27 @@ def path_records(body, limit=20000):
                 outcome = "Err:propagated"
         recs.append({"path": path, "decisions": decisions, "calls": calls, "aggs": aggs, "outcome": outcome})
     return recs
+
+
+def on_ok_arm(body, call, bb):
+    """Is block `bb` reachable only through the success arm of `call`'s Result?  Accepts `call(..)?`
+    (Continue arm of Try::branch) and a direct `match call(..) { Ok(..) => .., Err(..) => .. }`."""
+    for b in sorted(body.reachable()):
+        info = body.switch_info(b)
+        if not info or not info[3]:
+            continue
+        subject, targets, otherwise, names = info
+        vals = set(names.values())
+        if not (vals == {"Ok", "Err"} or vals == {"Continue", "Break"}):
+            continue
+        cs = [x[3] for x in expr_calls(subject) if len(x) > 3]
+        if not any(x is call for x in cs):
+            continue
+        # for Continue/Break the subject must be branch(call)
+        for v, n in names.items():
+            if n in ("Ok", "Continue"):
+                t = targets.get(v, otherwise)
+                bad_t = [targets.get(v2, otherwise) for v2, n2 in names.items() if n2 in ("Err", "Break")]
+                if body.dominates(t, bb) and not any(body.dominates(x, bb) for x in bad_t if x != t):
+                    return True
+    return False
